@@ -1,7 +1,7 @@
 (* C06  Secret sharing is textbook Shamir over GF(2^128+12451).  Statements only. *)
 From Coq Require Import ZArith NArith List.
 Import ListNotations.
-From StarV Require Import Params Bytes Fp PolyDefs Shamir FieldFacts Lagrange ShamirFacts.
+From StarV Require Import Params Bytes Fp PolyDefs Shamir FieldFacts Lagrange ShamirFacts LimbPrim LimbGen FpLimbs LimbFacts LimbShamir.
 
 (* every share is a point (x, f_1 x, ..., f_k x) on the dealt polynomials *)
 Theorem C06_share_is_point : forall (polys : list (list fp)) (x : fp),
@@ -74,3 +74,19 @@ Proof. exact recover_never_panics. Qed.
 Example C06_nonvacuous :
   recover 2 [evaluate [[mkfp 5; mkfp 9]] (mkfp 1); evaluate [[mkfp 5; mkfp 9]] (mkfp 2)] = Ok (to_repr (mkfp 9)).
 Proof. vm_compute. reflexivity. Qed.
+
+(* ---- "all values agree with an independent big-integer implementation", as a theorem about the limb code: the Horner
+   evaluation of the dealer and the Lagrange interpolation of recovery, instantiated with the limb operations ff_derive
+   generates (model/LimbGen.v, regenerated from the expanded source) - on ANY coefficients, points and values given as
+   limbs below the modulus - produce limbs below the modulus that represent exactly what the big-integer model computes
+   (lrel t u: t is valid and stands for the field element u) *)
+Theorem C06_limbs_evaluate : forall (cs : list limbs) (cs' : list fp) (x : limbs) (x' : fp),
+  Forall2 lrel cs cs' -> lrel x x' -> lrel (lhorner cs x) (fhorner cs' x').
+Proof. exact lhorner_correct. Qed.
+Theorem C06_limbs_interpolate : forall (l : list (limbs * limbs)) (l' : list (fp * fp)),
+  Forall2 prel l l' -> lrel (linterp_pairs l) (finterp_pairs l') /\ lrel (linterp_pairs l) (finterp_pairs_fast l').
+Proof. intros l l' H. split; [exact (linterp_correct l l' H)|exact (linterp_fast l l' H)]. Qed.
+(* the `invert().unwrap()` inside interpolate never panics: every inverted difference is non-zero *)
+Theorem C06_limbs_interpolate_no_unwrap_panic : forall (pts : list limbs) (a b : limbs),
+  Forall lvalid pts -> lvalid a -> In b (others limbs leqb pts a) -> linvert (lsub b a) <> None.
+Proof. exact linterp_no_unwrap_panic. Qed.
